@@ -58,6 +58,8 @@ WORKER = textwrap.dedent(
     for step in plan:
         if step["op"] == "run":
             s = load_settings(step["argv"])
+            if step.get("color"):
+                s.color = True  # what a terminal gets
             errs = run_refurb(s)
             out.append(format_errors(errs, s))
             del errs
